@@ -12,8 +12,10 @@ package dtlshandshake
 
 import (
 	"context"
+	"crypto/rand"
 	"errors"
 	"hash"
+	"time"
 
 	dtlsciphersuite "github.com/pion/dtls/v3/internal/ciphersuite"
 	dtlsconfig "github.com/pion/dtls/v3/internal/config"
@@ -95,6 +97,14 @@ type zzConn20 struct {
 	commits     []*dtlsstate.TrafficGeneration
 	commitErr   error
 	drained     int
+
+	// auto mode (zzOneReliableFlight): record numbers are generated, tracked records are logged, and a
+	// successful commit has the effect of the real Conn.commitLocalKeyUpdate (checked in conn_keys.go).
+	auto        bool
+	autoSeq     uint64
+	trackedNums []protocol.RecordNumber
+	trackedTyp  []handshake.Type
+	commitTo    *dtlsstate.State13
 }
 
 func (c *zzConn20) HandleQueuedPackets(context.Context) error { c.drained++; return nil }
@@ -116,10 +126,29 @@ func (c *zzConn20) WritePackets(_ context.Context, pkts []*dtlsflight.Packet) (*
 	}
 	res := &WriteResult{}
 	for _, p := range pkts {
-		if p.ShouldTrackACK { // only ACK-tracked packets get record numbers reported back
+		if !p.ShouldTrackACK { // only ACK-tracked packets get record numbers reported back
+			continue
+		}
+		if !c.auto {
 			res.TrackedRecords = c.nextRecords
 			c.nextRecords = nil
+
+			continue
 		}
+		hs, ok := p.Record.Content.(*handshake.Handshake)
+		if !ok {
+			continue
+		}
+		num := protocol.RecordNumber{Epoch: uint64(p.Record.Header.Epoch), SequenceNumber: c.autoSeq}
+		c.autoSeq++
+		c.trackedNums = append(c.trackedNums, num)
+		c.trackedTyp = append(c.trackedTyp, hs.Header.Type)
+		res.TrackedRecords = append(res.TrackedRecords, SentHandshakeRecord{
+			Number: num,
+			Fragments: []SentHandshakeFragment{{
+				MessageSequence: hs.Header.MessageSequence, Offset: 0, Length: hs.Header.Length,
+			}},
+		})
 	}
 
 	return res, nil
@@ -127,8 +156,21 @@ func (c *zzConn20) WritePackets(_ context.Context, pkts []*dtlsflight.Packet) (*
 
 func (c *zzConn20) CommitLocalKeyUpdate(g *dtlsstate.TrafficGeneration) error {
 	c.commits = append(c.commits, g)
+	if c.commitErr == nil && c.commitTo != nil {
+		c.commitTo.TrafficKeys.Install(g, nil)
+		c.commitTo.SetLocalEpoch(g.Epoch)
+	}
 
 	return c.commitErr
+}
+
+// zzRand20 stands in for crypto/rand.Reader (nil under the interpreter): arbitrary bytes.
+type zzRand20 struct{}
+
+func (zzRand20) Read(p []byte) (int, error) {
+	copy(p, zzsymBytes("rand", len(p)))
+
+	return len(p), nil
 }
 
 var errZZCommit20 = errors.New("zz commit refused")
@@ -781,4 +823,167 @@ func zzUpdateFailsWithoutAck() {
 		now, _ := st.TrafficKeys.CurrentWrite()
 		zzsymAssert(now == cur, "write_generation_unchanged")
 	}
+}
+
+// ---------------------------------------------------------------------------------------------
+// one reliable post-handshake flight at a time, whatever its kind; emitted epochs never go back
+// ---------------------------------------------------------------------------------------------
+
+// zzAckAll20 acknowledges every tracked record the fake connection emitted so far whose handshake type is typ.
+func zzAckAll20(conn *zzConn20, typ handshake.Type) protocol.ACK {
+	ack := protocol.ACK{}
+	for i, num := range conn.trackedNums {
+		if conn.trackedTyp[i] == typ {
+			ack.Records = append(ack.Records, num)
+		}
+	}
+
+	return ack
+}
+
+func zzWrittenTypes20(conn *zzConn20, typ handshake.Type) int {
+	n := 0
+	for _, pkts := range conn.written {
+		for _, pkt := range pkts {
+			if hs, ok := pkt.Record.Content.(*handshake.Handshake); ok && hs.Header.Type == typ {
+				n++
+			}
+		}
+	}
+
+	return n
+}
+
+func zzMonotone20(conn *zzConn20, label string) {
+	for i := 1; i < len(conn.writeEpochs); i++ {
+		zzsymAssert(conn.writeEpochs[i] >= conn.writeEpochs[i-1], "emitted_epochs_never_decrease")
+	}
+	_ = label
+}
+
+// A server after the handshake (initialize() queues its NewSessionTicket) with an arbitrary sending epoch e <
+// 65535: the ticket goes out as a reliable flight; then the application calls UpdateKeys (with or without
+// requesting the peer's update). Two continuations: (A) the ticket is acknowledged, the KeyUpdate starts, is
+// acknowledged and committed (the fake connection applies the commit as Conn.commitLocalKeyUpdate does), an
+// application record is written and the retransmission timer fires; (B) the ticket's datagram is lost, the
+// retransmission timer fires, the peer acknowledges every record that is not the ticket's, an application
+// record is written and the timer fires again. Proved: the KeyUpdate is not started (nothing of type KeyUpdate
+// is written, the command stays queued, its completion has no outcome, no commit) for as long as the ticket
+// flight - a reliable flight that is not a KeyUpdate - is unacknowledged; acknowledging the ticket commits
+// nothing and leaves the epoch alone; afterwards the KeyUpdate starts under epoch e, and only its own ACK
+// completes it and moves the sending epoch to e+1; at most one reliable flight is ever active; and over the
+// whole run, including every retransmission and the application record after the committed update, the epoch
+// of each emitted record is >= the epoch of the record emitted before it.
+//
+//symgo:entry covers=ticket_acked_then_update,ticket_lost_update_waits,ticket_retransmitted_in_epoch
+func zzOneReliableFlight() {
+	hashLen := 32
+	rand.Reader = zzRand20{}
+	p, st, conn := zzPost20(hashLen)
+	st.IsClient = false
+	p.initialized = false
+	conn.auto = true
+	conn.autoSeq = zzsymU64("first_record_seq")
+	zzsymAssume(conn.autoSeq < 1<<40)
+	conn.commitTo = st
+	cur := zzGenH20("cur", hashLen)
+	zzsymAssume(cur.Epoch != 0xffff)
+	zzsymAssume(cur.Epoch >= 3)
+	st.TrafficKeys.Install(cur, nil)
+	st.SetLocalEpoch(cur.Epoch)
+	st.HandshakeSendSequence = 2
+	ctx := context.Background()
+	later := time.Now().Add(time.Hour)
+
+	p.initialize()
+	err := p.startQueuedPostHandshake(ctx, conn)
+	zzsymAssert(err == nil, "ticket_started")
+	zzsymAssert(len(p.flights) == 1 && zzWrittenTypes20(conn, handshake.TypeNewSessionTicket) == 1, "ticket_flight_active")
+
+	// UpdateKeys is called while the ticket is unacknowledged
+	completion := zzCompletion20()
+	request := handshake.KeyUpdateRequest(zzsymChoice("request", 2))
+	p.queue = append(p.queue, postHandshakeCommand{
+		Kind: commandSendKeyUpdate, KeyUpdate: keyUpdateCommand{Request: request}, Completion: completion,
+	})
+	waits := func() {
+		zzsymAssert(zzWrittenTypes20(conn, handshake.TypeKeyUpdate) == 0, "keyupdate_waits_behind_unacknowledged_reliable_flight")
+		zzsymAssert(len(p.queue) == 1 && p.queue[0].Kind == commandSendKeyUpdate, "keyupdate_stays_queued")
+		zzsymAssert(len(p.flights) == 1, "single_reliable_flight")
+		zzsymAssert(completion.outcome.Load() == nil, "no_outcome_before_ack")
+		zzsymAssert(len(conn.commits) == 0, "no_commit_before_ack")
+		zzsymAssert(st.LocalEpoch() == cur.Epoch, "sending_epoch_untouched_before_ack")
+	}
+	err = p.startQueuedPostHandshake(ctx, conn)
+	zzsymAssert(err == nil, "queue_processing_ok")
+	waits()
+
+	app := func() {
+		pkt := &dtlsflight.Packet{
+			Record: &recordlayer.RecordLayer{
+				Header:  recordlayer.Header{Version: protocol.Version1_2},
+				Content: &protocol.ApplicationData{Data: zzsymBytes("payload", 1)},
+			},
+			ShouldEncrypt: true,
+		}
+		p.queue = append(p.queue, postHandshakeCommand{
+			Kind: commandSendApplicationData, Packets: []*dtlsflight.Packet{pkt}, Completion: zzCompletion20(),
+			Write: func(c Conn, pkts []*dtlsflight.Packet) error {
+				_, werr := c.WritePackets(ctx, pkts)
+
+				return werr
+			},
+		})
+		zzsymAssert(p.startQueuedPostHandshake(ctx, conn) == nil, "queue_processing_ok")
+	}
+
+	if zzsymChoice("ticket_acked", 2) == 1 {
+		// (A) ticket acknowledged -> KeyUpdate may start
+		err = p.handlePostHandshakeReceive(ctx, conn, RecvHandshakeState{ACKs: []protocol.ACK{zzAckAll20(conn, handshake.TypeNewSessionTicket)}})
+		zzsymAssert(err == nil, "ticket_ack_ok")
+		zzsymAssert(len(p.flights) == 0, "ticket_flight_done")
+		zzsymAssert(len(conn.commits) == 0 && st.LocalEpoch() == cur.Epoch, "ticket_ack_commits_nothing")
+		zzsymAssert(completion.outcome.Load() == nil, "ticket_ack_does_not_complete_keyupdate")
+		zzsymAssert(p.startQueuedPostHandshake(ctx, conn) == nil, "queue_processing_ok")
+		zzsymAssert(zzWrittenTypes20(conn, handshake.TypeKeyUpdate) == 1 && len(p.flights) == 1, "keyupdate_starts_after_ticket_ack")
+		zzsymAssert(conn.writeEpochs[len(conn.writeEpochs)-1] == cur.Epoch, "keyupdate_sent_under_current_epoch")
+		zzsymAssert(completion.outcome.Load() == nil, "no_outcome_before_ack")
+		err = p.handlePostHandshakeReceive(ctx, conn, RecvHandshakeState{ACKs: []protocol.ACK{zzAckAll20(conn, handshake.TypeKeyUpdate)}})
+		zzsymAssert(err == nil, "keyupdate_ack_ok")
+		out := completion.outcome.Load()
+		zzsymAssert(out != nil && out.err == nil, "keyupdate_completed_by_its_own_ack")
+		zzsymAssert(len(conn.commits) == 1, "committed_once")
+		zzCheckSuccessor20(cur, conn.commits[0], hashLen)
+		zzsymAssert(uint32(st.LocalEpoch()) == uint32(cur.Epoch)+1, "sending_epoch_is_previous_plus_one")
+		app()
+		zzsymAssert(conn.writeEpochs[len(conn.writeEpochs)-1] == st.LocalEpoch(), "application_record_under_new_epoch")
+		emitted := len(conn.writeEpochs)
+		zzsymAssert(p.retransmitPostHandshake(ctx, conn, later, false) == nil, "timer_ok")
+		zzsymAssert(len(conn.writeEpochs) == emitted, "nothing_left_to_retransmit_after_update")
+		zzMonotone20(conn, "A")
+		zzsymCover("ticket_acked_then_update")
+
+		return
+	}
+	// (B) the ticket is lost: timer, retransmission, the peer acknowledges everything that is not the ticket
+	emitted := len(conn.writeEpochs)
+	zzsymAssert(p.retransmitPostHandshake(ctx, conn, later, false) == nil, "timer_ok")
+	zzsymAssert(zzWrittenTypes20(conn, handshake.TypeNewSessionTicket) == 2, "ticket_retransmitted")
+	zzsymAssert(len(conn.writeEpochs) == emitted+1 && conn.writeEpochs[emitted] == cur.Epoch, "ticket_retransmission_in_flight_epoch")
+	zzsymCover("ticket_retransmitted_in_epoch")
+	zzsymAssert(p.startQueuedPostHandshake(ctx, conn) == nil, "queue_processing_ok")
+	waits()
+	err = p.handlePostHandshakeReceive(ctx, conn, RecvHandshakeState{ACKs: []protocol.ACK{zzAckAll20(conn, handshake.TypeKeyUpdate)}})
+	zzsymAssert(err == nil, "ack_ok")
+	zzsymAssert(p.startQueuedPostHandshake(ctx, conn) == nil, "queue_processing_ok")
+	waits()
+	// the caller abandons its UpdateKeys (dropped from the queue) so that an application record can go out - it
+	// would otherwise wait behind the queued KeyUpdate; then the timer again (beyond the backed-off interval)
+	p.queue = nil
+	app()
+	zzsymAssert(conn.writeEpochs[len(conn.writeEpochs)-1] == st.LocalEpoch(), "application_record_under_sending_epoch")
+	zzsymAssert(p.retransmitPostHandshake(ctx, conn, later.Add(time.Hour), false) == nil, "timer_ok")
+	zzMonotone20(conn, "B")
+	zzsymAssert(completion.outcome.Load() == nil, "keyupdate_not_reported_done_while_ticket_unacknowledged")
+	zzsymCover("ticket_lost_update_waits")
 }
